@@ -39,6 +39,9 @@ def build(rng, tier):
         rows = [[(rng.pick([1, 2, 3]) if (x == NULL and kenc[j] == "i64") else x) for j, x in enumerate(r)] for r in rows]
         lv = rng.pick(subsets(nk))
         mc.append(dict(op=rng.pick(OPS), keys=rows, kenc=kenc, vals=vals, sel=sel, levels=lv, explicit=int(rng.random() < 0.5)))
+        if rng.random() < 0.25:
+            # integer values at 2^53: ordinary rows and 'All' rows must stay exact (no detour through float64)
+            mc[-1].update(op=rng.pick(["sum", "min", "max"]), emb="i64big", vals=[(rng.pick([1, 2, 3]) if v == NULL else v) for v in vals])
     for _ in range(1500 if tier == "quick" else 20000):
         nrow, ncol = rng.pick([(1, 1), (1, 1), (2, 1), (1, 2), (2, 2)])
         nk = nrow + ncol
